@@ -55,15 +55,18 @@ func sourceFile(kind string, env EnumEnv, objDesc string, props []Prop) *sourced
 	if env.ExplicitPrefix {
 		enum.Prefix = env.Prefix
 	}
+	for _, f := range env.InfoFields {
+		enum.Info = append(enum.Info, &schema_j5pb.Enum_OptionInfoField{Name: f[0], Label: f[1], Description: f[2]})
+	}
 	if env.Unspecified != "" {
-		enum.Options = append(enum.Options, &schema_j5pb.Enum_Option{Name: env.Unspecified, Description: env.UnspecDesc})
+		enum.Options = append(enum.Options, &schema_j5pb.Enum_Option{Name: env.Unspecified, Description: env.UnspecDesc, Info: env.UnspecInfo})
 	}
 	for i, o := range env.Options {
 		d := ""
 		if i < len(env.OptDescs) {
 			d = env.OptDescs[i]
 		}
-		enum.Options = append(enum.Options, &schema_j5pb.Enum_Option{Name: o, Description: d})
+		enum.Options = append(enum.Options, &schema_j5pb.Enum_Option{Name: o, Description: d, Info: env.optInfo(i)})
 	}
 	str := func(name string) *schema_j5pb.ObjectProperty {
 		return &schema_j5pb.ObjectProperty{Name: name, Schema: &schema_j5pb.Field{Type: &schema_j5pb.Field_String_{String_: &schema_j5pb.StringField{}}}}
